@@ -43,6 +43,13 @@ EDITS = {
         ("st19", ST + "tree_diff.rs", "child_patches_map.push(((old_idx, new_idx), patches, score));", "child_patches_map.push(((new_idx, old_idx), patches, score));", "verus", "state_tree"),
     ],
     "C05": [
+        ("bs01", "crates/lib/mimium-lang/src/compiler/bytecodegen.rs", "                Some(VmInstruction::PushStatePos(state_size))", "                Some(VmInstruction::PopStatePos(state_size))", "verus", "backend_state"),
+        ("bs02", "crates/lib/mimium-lang/src/compiler/bytecodegen.rs", "                let delay_idx = u8::try_from(funcproto.delay_sizes.len())\n                    .expect(\"too many delays in one function\");\n                funcproto.delay_sizes.push(max);", "                funcproto.delay_sizes.push(max);\n                let delay_idx = u8::try_from(funcproto.delay_sizes.len())\n                    .expect(\"too many delays in one function\");", "verus", "backend_state"),
+        ("bs03", "crates/lib/mimium-lang/src/compiler/bytecodegen.rs", "                        bytecodes_dst.push(VmInstruction::SetState(new, size));\n                        Some(VmInstruction::Return(new, size))", "                        bytecodes_dst.push(VmInstruction::SetState(new, 1));\n                        Some(VmInstruction::Return(new, size))", "verus", "backend_state"),
+        ("bs04", "crates/lib/mimium-lang/src/compiler/wasmgen.rs", "                func.instruction(&W::I64Const(*offset as i64));\n                func.instruction(&W::Call(self.rt.state_pop));", "                func.instruction(&W::I64Const(*offset as i64));\n                func.instruction(&W::Call(self.rt.state_push));", "verus", "backend_state"),
+        ("bs05", "crates/lib/mimium-lang/src/compiler/wasmgen.rs", "                let temp_addr = self.mem_layout.alloc_offset;\n                self.mem_layout.alloc_offset += size_bytes;\n\n                // Call state_get", "                let temp_addr = self.mem_layout.alloc_offset;\n                self.mem_layout.alloc_offset += 8;\n\n                // Call state_get", "verus", "backend_state"),
+        ("bs06", "crates/lib/mimium-lang/src/compiler/wasmgen.rs", "                func.instruction(&W::I32Const(size));\n                func.instruction(&W::Call(self.rt.state_get));", "                func.instruction(&W::I32Const(1));\n                func.instruction(&W::Call(self.rt.state_get));", "verus", "backend_state"),
+        ("bs07", "crates/lib/mimium-lang/src/compiler/wasmgen.rs", "                let max_len_i64 = i64::try_from(*len).unwrap_or(i64::MAX);\n                func.instruction(&W::I64Const(max_len_i64));", "                let max_len_i64 = i64::try_from(*len).unwrap_or(i64::MAX);\n                func.instruction(&W::I64Const(max_len_i64 + 1));", "verus", "backend_state"),
         ("rb01", RT + "vm/ringbuffer.rs", "*self.write_idx = (write_idx + 1) % len;", "*self.write_idx = write_idx + 1;", "kani", "runtime"),
         ("rb02", RT + "vm/ringbuffer.rs", "let read_idx = (write_idx + len - delay_samples) % len;", "let read_idx = (write_idx + len - delay_samples - 1) % len;", "kani", "runtime"),
         ("rb03", RT + "vm/ringbuffer.rs", "let data_head = head.offset(2);", "let data_head = head.offset(1);", "kani", "runtime"),
